@@ -14,22 +14,26 @@ use std::time::Instant;
 #[derive(Clone, Debug, Serialize, Deserialize)]
 pub enum Job {
     A(crate::wa_plan::PlanA),
+    B(crate::wb_plan::PlanB),
 }
 
 impl Job {
     pub fn seed(&self) -> u64 {
         match self {
             Job::A(p) => p.seed,
+            Job::B(p) => p.seed,
         }
     }
     pub fn run(&self, trace: bool) -> RunResult {
         match self {
             Job::A(p) => crate::wa_exec::run_plan(p, &crate::wa_exec::ExecOpts { trace, only: None }),
+            Job::B(p) => crate::wb_exec::run_plan(p, &crate::wb_exec::ExecB { trace }),
         }
     }
     pub fn size(&self) -> usize {
         match self {
             Job::A(p) => p.steps.len() * 4 + p.clients.len() + p.configs.len(),
+            Job::B(p) => p.queries.len() * 4 + p.routes.len() + p.upstreams.len() + (p.yield_p > 0.0) as usize + (p.spurious_p > 0.0) as usize + (p.eintr_p > 0.0) as usize + (p.out_loss_p > 0.0) as usize + (p.out_dup_p > 0.0) as usize + (p.out_delay_p > 0.0) as usize,
         }
     }
     /// Smaller variants of this plan, most aggressive first.
@@ -74,6 +78,43 @@ impl Job {
                             out.push(Job::A(q));
                         }
                     }
+                }
+            }
+            Job::B(p) => {
+                let n = p.queries.len();
+                let mut chunk = n / 2;
+                while chunk >= 1 {
+                    let mut start = 0;
+                    while start < n {
+                        let end = (start + chunk).min(n);
+                        /* queries refer to each other by index (cookies): only drop a
+                         * range nothing later points into */
+                        let referenced = p.queries[end..].iter().any(|q| matches!(&q.edns, Some(e) if matches!(e.cookie, crate::wb_plan::CookieSpec::FromQuery(i) if i >= start)));
+                        if !referenced {
+                            let mut q = p.clone();
+                            q.queries.drain(start..end);
+                            out.push(Job::B(q));
+                        }
+                        start += chunk;
+                    }
+                    chunk /= 2;
+                }
+                for f in 0..8 {
+                    let mut q = p.clone();
+                    match f {
+                        0 if q.yield_p > 0.0 => q.yield_p = 0.0,
+                        1 if q.spurious_p > 0.0 => q.spurious_p = 0.0,
+                        2 if q.eintr_p > 0.0 => q.eintr_p = 0.0,
+                        3 if q.out_loss_p > 0.0 => q.out_loss_p = 0.0,
+                        4 if q.out_dup_p > 0.0 => q.out_dup_p = 0.0,
+                        5 if q.out_delay_p > 0.0 => q.out_delay_p = 0.0,
+                        6 if q.routes.len() > 1 => {
+                            q.routes.pop();
+                        }
+                        7 if !q.clock_jumps.is_empty() => q.clock_jumps.clear(),
+                        _ => continue,
+                    }
+                    out.push(Job::B(q));
                 }
             }
         }
